@@ -11,7 +11,8 @@
 //!   keyspaces  ;-joined  <strategy>/<tablet based 0|1>    strategy: S<rf> | N<dc>=<rf>+... | L | O ; id = position
 //!   cfg        <pool S<k>|H<k>>/<shard-aware port disallowed>/<policy pref>/<token aware>/<failover>/<shuffle>/<session pref>
 //!              pref: i (inherit) | a | d<dc> | r<dc>.<rack>
-//!   stmt       <ks>.<table>/<m|c partitioner>/<lwt>/<serial cl>/<markers>   marker: <i|l|t|b><pk position|->
+//!   stmt       <ks>.<table>/<m|c partitioner>/<lwt>/<serial cl>/<markers>/<api>   marker: <i|l|t|b><pk position|->
+//!              api: u execute_unpaged | s execute_single_page | i execute_iter (the first page)
 //!   tablets    - | ;-joined history of the statement's table:  L<a>:<b>:<host>=<shard>+...  |  R (refresh_metadata)
 //!   values     ,-joined  v<hex> | n | u      (the serialized bound values, marker order)
 //!   obs        <node>:<shard> | none | unsettled
@@ -24,6 +25,7 @@ use scylla::cluster::metadata::Peer;
 use scylla::policies::host_filter::HostFilter;
 use scylla::policies::load_balancing::DefaultPolicy;
 use scylla::policies::retry::FallthroughRetryPolicy;
+use scylla::response::PagingState;
 use scylla::routing::Token;
 use scylla::statement::prepared::PreparedStatement;
 use scylla::statement::Consistency;
@@ -92,6 +94,7 @@ struct StmtC {
     lwt: bool,
     serial: bool,
     marks: Vec<MarkC>,
+    api: char,
 }
 #[derive(Clone, Debug)]
 enum TabOp {
@@ -238,13 +241,14 @@ impl ClusterC {
 impl StmtC {
     fn field(&self) -> String {
         format!(
-            "{:x}.{:x}/{}/{}/{}/{}",
+            "{:x}.{:x}/{}/{}/{}/{}/{}",
             self.ks,
             self.tb,
             if self.cdc { "c" } else { "m" },
             b01(self.lwt),
             b01(self.serial),
-            self.marks.iter().map(|m| format!("{}{}", m.ty, m.pk.map(|p| p.to_string()).unwrap_or("-".into()))).collect::<Vec<_>>().join(",")
+            self.marks.iter().map(|m| format!("{}{}", m.ty, m.pk.map(|p| p.to_string()).unwrap_or("-".into()))).collect::<Vec<_>>().join(","),
+            self.api
         )
     }
     fn parse(s: &str) -> StmtC {
@@ -260,6 +264,7 @@ impl StmtC {
                 .split(',')
                 .map(|m| MarkC { ty: m.chars().next().unwrap(), pk: if &m[1..] == "-" { None } else { Some(m[1..].parse().unwrap()) } })
                 .collect(),
+            api: f.get(5).and_then(|a| a.chars().next()).unwrap_or('u'),
         }
     }
     fn ks_name(&self) -> String {
@@ -302,10 +307,6 @@ impl StmtC {
         let mut pk: Vec<(u8, usize)> = self.marks.iter().enumerate().filter_map(|(i, m)| m.pk.map(|p| (p, i))).collect();
         pk.sort();
         PreparedSpec { bind_columns, pk_indexes: pk.iter().map(|(_, i)| *i as u16).collect(), lwt: self.lwt, ..Default::default() }
-    }
-    /// pk indexes in partition key order (what the server announces)
-    fn wire(&self) -> Vec<u16> {
-        self.prepared_spec().pk_indexes
     }
 }
 fn tabs_s(h: &[TabOp]) -> String {
@@ -471,6 +472,7 @@ impl Running {
         }
         for s in stmts {
             cluster.on_prepare(&s.text(), s.prepared_spec());
+            cluster.set_default(NodeSel::Any, s.text().as_str(), vec![Action::Rows(RowsSpec::new(vec![], vec![]))]);
         }
         cluster.on_prepare(
             SENT_TEXT,
@@ -526,6 +528,16 @@ impl Running {
         if !r.settle(true).await {
             r.stop();
             return Err("unsettled-after-stop".into());
+        }
+        // a refresh triggered by a lost control connection must be over before tablets are learnt
+        // (every refresh runs the tablets maintenance); an explicit one is queued behind it
+        if c.nodes.iter().any(|n| n.up == 'a') && r.session.refresh_metadata().await.is_err() {
+            r.stop();
+            return Err("refresh-after-stop".into());
+        }
+        if !r.settle(true).await {
+            r.stop();
+            return Err("unsettled-after-refresh".into());
         }
         match r.session.prepare(SENT_TEXT).await {
             Ok(p) => r.sentinel = Some(p),
@@ -617,17 +629,20 @@ impl Running {
         }
         false
     }
-    async fn apply(&mut self, st: &StmtC, p: &PreparedStatement, op: &TabOp) -> bool {
+    /// Some(true): applied; Some(false): the carrying request could not be sent, nothing was delivered;
+    /// None: could not establish that the cluster state caught up
+    async fn apply(&mut self, st: &StmtC, p: &PreparedStatement, op: &TabOp) -> Option<bool> {
         match op {
-            TabOp::Refresh => self.session.refresh_metadata().await.is_ok(),
+            TabOp::Refresh => if self.session.refresh_metadata().await.is_ok() { Some(true) } else { None },
             TabOp::Learn { a, b, reps } => {
                 let r: Vec<(Uuid, i32)> = reps.iter().map(|(h, s)| (host_uuid(*h), *s)).collect();
                 self.cluster.script(NodeSel::Any, st.text().as_str(), vec![Action::TabletPayload(tablet_payload_value(*a, *b, &r)), Action::Void]);
                 let vals: Vec<Option<CqlValue>> = st.marks.iter().map(|m| to_cql(m.ty, &Val::V(default_bytes(m.ty)))).collect();
                 if self.session.execute_unpaged(p, vals).await.is_err() {
-                    return false;
+                    self.cluster.clear_scripts();
+                    return Some(false);
                 }
-                self.sync_tablets().await
+                if self.sync_tablets().await { Some(true) } else { None }
             }
         }
     }
@@ -644,7 +659,14 @@ impl Running {
         };
         let _ = self.cluster.drain_trace();
         let typed: Vec<Option<CqlValue>> = st.marks.iter().zip(vals).map(|(m, v)| to_cql(m.ty, v)).collect();
-        let res = tokio::time::timeout(Duration::from_secs(10), self.session.execute_unpaged(p, typed)).await;
+        let res = tokio::time::timeout(Duration::from_secs(10), async {
+            match st.api {
+                's' => self.session.execute_single_page(p, typed, PagingState::start()).await.map(|_| ()).map_err(|_| ()),
+                'i' => self.session.execute_iter(p.clone(), typed).await.map(|_| ()).map_err(|_| ()),
+                _ => self.session.execute_unpaged(p, typed).await.map(|_| ()).map_err(|_| ()),
+            }
+        })
+        .await;
         let id = self.cluster.prepared_id(&st.text());
         let mut obs = "none".to_string();
         for e in self.cluster.drain_trace() {
@@ -809,7 +831,7 @@ fn gen_stmt(r: &mut Rng, c: &ClusterC, tb: u32) -> StmtC {
             }
         }
     }
-    StmtC { ks, tb, cdc, lwt: r.chance(1, 5), serial: r.chance(1, 8), marks }
+    StmtC { ks, tb, cdc, lwt: r.chance(1, 5), serial: r.chance(1, 8), marks, api: *r.pick(&['u', 'u', 's', 'i']) }
 }
 
 fn gen_val(r: &mut Rng, ty: char) -> Vec<u8> {
@@ -837,9 +859,9 @@ fn gen_vals(r: &mut Rng, st: &StmtC) -> Vec<Val> {
 /// prepared statement is not available before the session exists; aim is only a generator aid)
 fn gen_tablet_ops(r: &mut Rng, c: &ClusterC, aim: &[i64]) -> Vec<TabOp> {
     let n = c.nodes.len() as u32;
-    let nops = r.range(1, 6) as usize;
+    let nops = r.range(1, 8) as usize;
     let mut ops = Vec::new();
-    let style = r.below(4);
+    let style = *r.pick(&[0u64, 0, 0, 1, 2, 2, 3]);
     for k in 0..nops {
         if r.chance(1, 7) && k > 0 {
             ops.push(TabOp::Refresh);
@@ -856,8 +878,14 @@ fn gen_tablet_ops(r: &mut Rng, c: &ClusterC, aim: &[i64]) -> Vec<TabOp> {
             // tablets around the tokens of keys that will be sent (may overlap: latest wins)
             1 | 2 if !aim.is_empty() => {
                 let t = *r.pick(aim);
-                let w = 1i64 << r.range(1, 60);
-                (t.saturating_sub(r.below(w as u64) as i64 + 1), t.saturating_add(r.below(w as u64) as i64))
+                let w = 1i64 << r.range(1, 62);
+                match r.below(8) {
+                    // the key's token on a boundary of the left-open range (a, b]
+                    0 => (t.saturating_sub(1), t),
+                    1 => (t, t.saturating_add(r.below(w as u64) as i64 + 1)),
+                    2 => (t.saturating_sub(r.below(w as u64) as i64 + 1), t),
+                    _ => (t.saturating_sub(r.below(w as u64) as i64 + 1), t.saturating_add(r.below(w as u64) as i64)),
+                }
             }
             _ => {
                 let x = r.i64();
@@ -925,17 +953,20 @@ async fn run_cluster(r: &mut Rng, c: &ClusterC, nkeys: usize, out: &mut Out) {
         let mut ok = true;
         for (phase, range) in [(0, 0..split), (1, split..ops.len())] {
             for op in &ops[range] {
-                if !run.apply(st, &p, op).await {
-                    ok = false;
-                    break;
+                match run.apply(st, &p, op).await {
+                    Some(true) => hist.push(op.clone()),
+                    Some(false) => {}
+                    None => {
+                        ok = false;
+                        break;
+                    }
                 }
-                hist.push(op.clone());
             }
             if !ok {
                 out.case(&format!("K {} {} {} {}", cf, st.field(), tabs_s(&hist), "n"), "skip:tablet-sync -");
                 break;
             }
-            let ks = if phase == 0 { &keys[..per / 2] } else { &keys[per / 2..] };
+            let ks = if phase == 0 { &keys[..per / 4] } else { &keys[per / 4..] };
             for k in ks {
                 let o = run.request(st, &p, k).await;
                 out.case(&format!("K {} {} {} {}", cf, st.field(), tabs_s(&hist), vals_s(k)), &o);
@@ -977,7 +1008,7 @@ async fn replay_line(case: &str, out: &mut Out) {
         }
     };
     for op in &hist {
-        if !run.apply(&st, &p, op).await {
+        if run.apply(&st, &p, op).await != Some(true) {
             out.case(case, "skip:tablet-sync -");
             run.stop();
             return;
